@@ -40,6 +40,8 @@ struct Hand {
     next_len: usize,
     next_small: usize,
     next_tag: u16,
+    /// too-small buffers the harness still holds, by length (identity = length, so one per length)
+    small_live: [bool; PDU_SIZE],
 }
 
 fn tag_of(len: usize) -> u8 {
@@ -76,7 +78,7 @@ fn run_sequence(k: usize, ops: &[Op], st: &mut Stats) -> Result<bool, String> {
     let cap = probe_capacity(k);
     let mut mem = SimpleGseMemory::new(k, PDU_SIZE, 0, 0);
     let mut model = Model { k, cap, free: vec![], slots: vec![None; k] };
-    let mut hand = Hand { pairs: vec![], bare: vec![], next_len: PDU_SIZE, next_small: 0, next_tag: 0 };
+    let mut hand = Hand { pairs: vec![], bare: vec![], next_len: PDU_SIZE, next_small: 0, next_tag: 0, small_live: [false; PDU_SIZE] };
     let mut interesting = false;
     let mut aliasing_take_after_save = false;
 
@@ -91,7 +93,13 @@ fn run_sequence(k: usize, ops: &[Op], st: &mut Stats) -> Result<bool, String> {
         match *op {
             Op::ProvNew(_) | Op::ProvHand => {
                 let buf = match *op {
-                    Op::ProvHand if !hand.bare.is_empty() => hand.bare.remove(0),
+                    Op::ProvHand if !hand.bare.is_empty() => {
+                        let b = hand.bare.remove(0);
+                        if b.len() < PDU_SIZE {
+                            hand.small_live[b.len()] = false;
+                        }
+                        b
+                    }
                     Op::ProvNew(2) => {
                         hand.next_small = hand.next_small % (PDU_SIZE - 1) + 1;
                         fresh_buf(hand.next_small)
@@ -128,6 +136,9 @@ fn run_sequence(k: usize, ops: &[Op], st: &mut Stats) -> Result<bool, String> {
                         }
                         if !small {
                             hand.bare.push(b);
+                        } else if !hand.small_live[len] {
+                            hand.small_live[len] = true;
+                            hand.bare.push(b);
                         }
                     }
                     Err(DecapMemoryError::BufferTooSmall(b)) => {
@@ -138,6 +149,13 @@ fn run_sequence(k: usize, ops: &[Op], st: &mut Stats) -> Result<bool, String> {
                         }
                         if b.len() != len || !intact(&b) {
                             bad!("provision", i, "BufferTooSmall handed back a different buffer");
+                        }
+                        // the caller still owns it and may save it under a context (the trait does not
+                        // restrict the size of a saved buffer): new_frag must then reuse it like any other
+                        if !hand.small_live[len] {
+                            hand.small_live[len] = true;
+                            st.class("undersized-buffer-kept");
+                            hand.bare.push(b);
                         }
                     }
                     Err(e) => bad!("provision", i, "unexpected error {:?}", e),
